@@ -31,6 +31,8 @@ impl Prop for C05 {
         for _ in 0..(if th { 60 } else { 12 }) { v.push(case(&[("sc", "payload-key-secret".into()), ("seed", rng.next().to_string())])); }
         for _ in 0..(if th { 400 } else { 60 }) { v.push(case(&[("sc", "name-lookup".into()), ("seed", rng.next().to_string())])); }
         for _ in 0..(if th { 12 } else { 3 }) { v.push(case(&[("sc", "cli-unknown-sender".into()), ("seed", rng.next().to_string())])); }
+        // the recipient is the keyring entry with EXACTLY the given name, also when other entries have names that look alike
+        for _ in 0..(if th { 8 } else { 2 }) { v.push(case(&[("sc", "cli-addressed-name".into()), ("seed", rng.next().to_string())])); }
         for (i, _) in LOW_ORDER.iter().enumerate() { for alias in ["plain", "highbit"] { for role in ["recipient", "ephemeral"] {
             v.push(case(&[("sc", "loworder".into()), ("idx", i.to_string()), ("alias", alias.into()), ("role", role.into()), ("seed", rng.next().to_string())]));
         } } }
@@ -81,6 +83,27 @@ impl Prop for C05 {
                     if let Some(n) = got { o.oracle_fail = Some(("sender-named-only-on-exact-key-match".into(), format!("get_name_from_key answers {:?} for a key that is not in the keyring ({}: {})", n, what, pstr))); return o; }
                 }
                 if kr.get_name_from_key(&EncodedPk::try_from(ka.as_str()).unwrap()).as_deref() != Some("alice") { o.oracle_fail = Some(("sender-named".into(), "an entry's own key is not found".into())); }
+            }
+            "cli-addressed-name" => {
+                use crate::cli::*;
+                let fx = fixtures();
+                // look-alike names, each with a key pair of its own (public-only entries), in a shuffled order; alice is the sender
+                let names = ["bob", "Bob", "bo", "bob ", "bobby", "BOB"];
+                let keys: Vec<(Vec<u8>, Vec<u8>)> = (0..names.len()).map(|_| { let k = rng.bytes(32); let p = pub_of(&k); (k, p) }).collect();
+                let mut order: Vec<usize> = (0..names.len()).collect(); for i in (1..order.len()).rev() { let j = rng.below(i + 1); order.swap(i, j); }
+                // a name is trimmed by the parser: "bob " cannot be told from "bob" in a keyring, so leave that one out of the file
+                let mut text = section(&fx.alice, true);
+                for &k in &order { if names[k].trim() != names[k] { continue; } text.push_str(&format!("\n[Key]\nName = {}\nPublicKey = {}\n", names[k], crate::props::c17::enc_pk(&keys[k].1))); }
+                for &k in &order { if names[k].trim() != names[k] { continue; }
+                    let world = World { files: vec![("p.bin".into(), p.clone()), ("kr.txt".into(), text.clone().into_bytes())], env: vec![("KESTREL_PASSWORD".into(), fx.alice.pw.into())], stdin: vec![] };
+                    let obs = run_kestrel(&world, &sv(&["encrypt", "p.bin", "-t", names[k], "-f", "alice", "-o", "c.bin", "-k", "kr.txt", "--env-pass"])); o.validated += 1;
+                    let Some(ct) = obs.file("c.bin").cloned() else { o.oracle_fail = Some(("addressed-name-found".into(), format!("encrypt -t {:?} with the keyring names {:?}: exit {:?} {}", names[k], order.iter().map(|&i| names[i]).collect::<Vec<_>>(), obs.exit, obs.stderr.trim()))); return o; };
+                    for &j in &order { if names[j].trim() != names[j] { continue; }
+                        let d = imp::key_decrypt(&keys[j].0, &keys[j].1, &ct, &NOSCRIPT);
+                        if (d.res == "ok") != (j == k) { o.oracle_fail = Some(("only-the-addressed-key-decrypts".into(), format!("`encrypt -t {:?}` (keyring entries {:?}): the file {} under the key of entry {:?}", names[k], order.iter().map(|&i| names[i]).collect::<Vec<_>>(), if d.res == "ok" { "decrypts" } else { "does NOT decrypt" }, names[j]))); o.impl_obs = format!("-t {:?}: key of {:?} -> {}", names[k], names[j], d.res); return o; }
+                    }
+                }
+                o.impl_obs = "every look-alike name addresses exactly its own key".into(); o.model_obs = "lookup by exact name".into();
             }
             "cli-unknown-sender" => {
                 // end to end through the binary: a file from a key that is NOT in the recipient's keyring must be reported as unknown, with its encoding
